@@ -584,4 +584,61 @@ class OpCopy(Op):"""),
             raise JSONPatchError("expected a JSON Patch document or a list of operations")
         if ops:
             self._load(ops)"""),
+    # ---- legitimate changes tried by the second oracle review (DESIGN 10.13): each must stay quiet
+    dict(id="ok-cli-module-level-parser", prop="C18", file="jsonpath/cli.py", expect="clean",
+         old="""def main() -> None:
+    \"\"\"CLI argument parser entry point.\"\"\"
+    parser = setup_parser()
+    args = parser.parse_args()""",
+         new="""_PARSER = setup_parser()
+
+
+def main() -> None:
+    \"\"\"CLI argument parser entry point.\"\"\"
+    args = _PARSER.parse_args()"""),
+    dict(id="ok-cli-closes-its-output", prop="C18", file="jsonpath/cli.py", expect="clean", count=3,
+         old="args.output, indent=indent)",
+         new="args.output, indent=indent)\n    args.output.close()"),
+    dict(id="ok-cli-stdin-as-bytes", prop="C18", file="jsonpath/cli.py", expect="clean", count=3,
+         old="        default=sys.stdin,",
+         new="        default=sys.stdin.buffer,"),
+    dict(id="ok-cli-sorted-keys-when-pretty", prop="C18", file="jsonpath/cli.py", expect="clean", count=3,
+         old="args.output, indent=indent)",
+         new="args.output, indent=indent, sort_keys=bool(args.pretty))"),
+    dict(id="ok-load-data-tests-textiobase", prop="C11", file="jsonpath/_data.py", expect="clean",
+         old="""    if isinstance(data, IOBase):
+        return json.loads(data.read())""",
+         new="""    if isinstance(data, IOBase):
+        import io
+
+        raw = data.read()
+        if isinstance(data, io.TextIOBase) or isinstance(raw, str):
+            return json.loads(raw)
+        return json.loads(bytes(raw).decode(json.detect_encoding(bytes(raw)), "surrogatepass"))"""),
+    dict(id="ok-asdicts-read-only-views", prop="C15", file="jsonpath/patch.py", expect="clean",
+         old="        return [op.asdict() for op in self.ops]",
+         new="        import types\n\n        return [types.MappingProxyType(op.asdict()) for op in self.ops]"),
+    dict(id="ok-async-yields-per-node", prop="C08", file="jsonpath/selectors.py", expect="clean", count=7,
+         old="        async for match in matches:\n",
+         new="        async for match in matches:\n            await __import__(\"asyncio\").sleep(0)\n"),
+    dict(id="ok-compile-behind-semaphore-and-event", prop="C09", file="jsonpath/env.py", expect="clean",
+         old="    def compile(self, path: str) -> Union[JSONPath, CompoundJSONPath]:  # noqa: A003",
+         new="""    def compile(self, path: str) -> Union[JSONPath, CompoundJSONPath]:  # noqa: A003
+        import threading
+
+        cond = self.__dict__.setdefault("_cond", threading.Condition())
+        sem = self.__dict__.setdefault("_sem", threading.BoundedSemaphore(1))
+        with cond:
+            while self.__dict__.get("_busy"):
+                cond.wait()
+            self.__dict__["_busy"] = True
+        try:
+            with sem:
+                return self._compile(path)
+        finally:
+            with cond:
+                self.__dict__["_busy"] = False
+                cond.notify_all()
+
+    def _compile(self, path: str) -> Union[JSONPath, CompoundJSONPath]:"""),
 ]
